@@ -36,7 +36,7 @@ Do(op, a, b, cc) ==
   /\ UNCHANGED ci
 
 Next ==
-  \/ "add_state" \in Ops /\ \E n \in {Fresh, SomeName} \ {Unk}, k \in Kinds, p \in T.names \cup {0, Unk} : Do("add_state", n, k, p)
+  \/ "add_state" \in Ops /\ \E n \in ((U \ T.names) \cup {SomeName}) \ {Unk}, k \in Kinds, p \in T.names \cup {0, Unk} : Do("add_state", n, k, p)
   \/ "remove_state" \in Ops /\ \E n \in Existing : Do("remove_state", n, 0, 0)
   \/ "rename_state" \in Ops /\ \E o \in Existing, n \in {Fresh, SomeName} \ {Unk} : Do("rename_state", o, n, 0)
   \/ "rename_state" \in Ops /\ \E o \in Existing : Do("rename_state", o, o, 0)
